@@ -203,7 +203,8 @@ def impl_ops(spec):
             return sparse.load_npz(b)
         o, _ = outcome_of(rt)
         res["ops"]["npz_c" if comp else "npz_u"] = o
-    for p in range(pickle.HIGHEST_PROTOCOL + 1):
+    protos = range(pickle.HIGHEST_PROTOCOL + 1) if spec.get("tier") != "quick" else (0, 2, pickle.HIGHEST_PROTOCOL)
+    for p in protos:
         o, _ = outcome_of(lambda p=p: pickle.loads(pickle.dumps(x, protocol=p)))
         res["ops"][f"pickle_{p}"] = o
     for name, deep, fn in (("copy.copy", False, lambda: copy.copy(x)), ("copy.deepcopy", True, lambda: copy.deepcopy(x)),
@@ -295,6 +296,27 @@ def impl_crc(case):
     _orig, buf = saved_file(spec, compressed)
     z = zipfile.ZipFile(io.BytesIO(buf))
     return {"members": [(i.filename, list(z.read(i.filename)), int(i.CRC)) for i in z.infolist()]}
+
+
+def impl_replaced(case):
+    """rewrite the saved archive with one integer member altered (how: short / long / empty) and load it"""
+    import io
+    import numpy as np
+    import sparse
+    spec, compressed, code, how = case
+    orig, buf = saved_file(spec, compressed)
+    d = dict(np.load(io.BytesIO(buf)))
+    name = MEMBERS[code]
+    a = np.asarray(d[name]).ravel()
+    new = {"short": a[:-1] if a.size else a, "long": np.concatenate([a, a[-1:] if a.size else np.zeros(1, dtype=np.int64)]),
+           "empty": a[:0]}[how]
+    if new.dtype.kind == "f":
+        new = new.astype(np.int64)
+    d[name] = new
+    out = io.BytesIO()
+    (np.savez_compressed if compressed else np.savez)(out, **d)
+    o, _ = outcome_of(lambda: sparse.load_npz(io.BytesIO(out.getvalue())))
+    return {"in": orig, "new": [int(v) for v in new.tolist()], "changed": new.size != a.size, "outcome": o}
 
 
 def impl_missing(case):
@@ -631,6 +653,10 @@ def campaign(build, tier, seed, report, budget=1):
         tags[key] = tags.get(key, 0) + 1
 
     specs = gen_specs(tier, rng)
+    if tier == "quick":
+        # quick tier: pickle protocols 0, 2 and the highest only (all protocols on the dtype x fill table rows)
+        for sp in specs[:-len(DTYPES) * 9] if len(specs) > len(DTYPES) * 9 else []:
+            sp["tier"] = "quick"
     nb_specs = gen_numba_specs(tier, rng, specs)
     files = gen_fault_files(tier, rng)
 
@@ -759,13 +785,47 @@ def campaign(build, tier, seed, report, budget=1):
                              (f" (clause {cl})" if cl else ""),
                      "case": {"spec": case[0], "compressed": case[1], "removed": [MEMBERS[c] for c in case[2]]},
                      "impl": r.get("outcome", r), "replay_py": replay_line("replay_missing", case[0], case[1], case[2])})
+    # ---------------------------------------------------------------- archives with an altered index pointer / axes member
+    rspecs = [
+        {"fmt": "gcxs", "shape": [2, 3], "axes": [1], "pattern": "partial", "dtype": "int32", "fill": "3", "seed": 16},
+        MM_FORMER,
+        {"fmt": "csr", "shape": [3, 4], "axes": [0], "pattern": "partial", "dtype": "float32", "fill": "3", "seed": 13},
+        {"fmt": "csc", "shape": [3, 4], "axes": [1], "pattern": "full", "dtype": "bool", "fill": "true", "seed": 17},
+        {"fmt": "gcxs", "shape": [6], "axes": None, "pattern": "partial", "dtype": "int64", "fill": "0", "seed": 12},
+        {"fmt": "gcxs", "shape": [0, 3], "axes": [0], "pattern": "empty", "dtype": "float64", "fill": "0", "seed": 19},
+    ]
+    rcases = [(sp, ci % 2 == 0, code, how) for ci, sp in enumerate(rspecs) for code in (5, 6, 4) for how in ("short", "long", "empty")]
+    rres = vlib.run_impl("props.c14", "impl_replaced", rcases, workers=4, per_case_timeout=60.0)
+    r_l, r_i = [], []
+    for ci, (case, r) in enumerate(zip(rcases, rres, strict=True)):
+        if "in" not in r:
+            viol.append({"property": "C14", "op": "load_npz_altered_member", "kind": "value", "clause": None, "case": case, "impl": r,
+                         "what": "hang / crash / harness failure on an archive with an altered member",
+                         "replay_py": replay_line("replay_replaced", case[0], case[1], case[2], case[3])})
+            continue
+        if not r["changed"]:
+            continue
+        evaluations += 1
+        tag("altered", MEMBERS[case[2]], case[3], "raised" if "exc" in r["outcome"] else "loaded")
+        r_l.append(vpair(jlit(r["in"]), vZ(case[2]), vlist(r["new"]), olit(r["outcome"])))
+        r_i.append(ci)
+    for k, code in build.judge("c14_replaced", IMPORTS, "jarr * Z * list Z * outcome", "judge_replaced", r_l, chunk=200):
+        case, r = rcases[r_i[k]], rres[r_i[k]]
+        tag("verdict", "c14_replaced", code)
+        viol.append({"property": "C14", "op": "load_npz_altered_member", "kind": "value" if code in (3, 6) else "representation",
+                     "clause": None, "verdict_code": code,
+                     "what": f"archive with member {MEMBERS[case[2]]} made {case[3]} ({r['new']}): " +
+                             ("an index pointer of the wrong length was loaded as an array" if code == 3 else
+                              "the implementation's outcome differs from the model's" if code == 1 else CODE_TEXT.get(code, str(code))),
+                     "case": {"spec": case[0], "compressed": case[1], "member": MEMBERS[case[2]], "how": case[3]},
+                     "impl": r["outcome"], "replay_py": replay_line("replay_replaced", case[0], case[1], case[2], case[3])})
     # ---------------------------------------------------------------- damaged files
     fcases = []
     for fi, (spec, comp, kinds, parts) in enumerate(files):
         for kind in kinds:
             for part in range(parts):
                 fcases.append((spec, comp, kind, part, parts, None))
-    fres = vlib.run_impl("props.c14", "impl_fault", fcases, workers=14, per_case_timeout=150.0)
+    fres = vlib.run_impl("props.c14", "impl_fault", fcases, workers=8, per_case_timeout=150.0)
     f_l, f_i = [], []
     fault_loads = 0
     fault_hist = {}
@@ -900,6 +960,16 @@ def replay_missing(spec, compressed, dropped):
     warnings.filterwarnings("ignore")
     r = impl_missing((spec, compressed, dropped))
     print("members of the saved file:", r["members"], "removed:", r["removed"])
+    print("load_npz ->", str(r["outcome"])[:600])
+
+
+def replay_replaced(spec, compressed, code, how):
+    import sys
+    sys.path.insert(0, vlib.REPO)
+    import warnings
+    warnings.filterwarnings("ignore")
+    r = impl_replaced((spec, compressed, code, how))
+    print("member", MEMBERS[code], "made", how, "->", r["new"])
     print("load_npz ->", str(r["outcome"])[:600])
 
 
